@@ -272,6 +272,24 @@ def reloc_churn(cfg, rng):
     return ops, sizes
 
 
+def reloc_same_names(cfg, rng):
+    """Rock Ridge relocation of directories with EQUAL names of the maximum length from different parents: inside RR_MOVED
+    the library must invent distinct identifiers that still obey the rules of the interchange level"""
+    if not cfg.rr or (cfg.level != 1 and rng.random() < 0.7):      # level 1 is where the length rule bites
+        return None
+    ops = []
+    name = 'ABCDEFGH' if cfg.level == 1 else 'ABCDEFGH' * 3 + 'ABCDEFG'
+    tops = ['A', 'B', 'C'][:rng.randrange(2, 4)]
+    for top in tops:
+        p = '/' + top
+        ops.append({'k': 'add_dir', 'iso': p, 'rr': top.lower()})
+        for n in 'DEFGHI':
+            p += '/' + n
+            ops.append({'k': 'add_dir', 'iso': p, 'rr': n.lower()})
+        ops.append({'k': 'add_dir', 'iso': p + '/' + name, 'rr': 'deep-' + top.lower()})
+    return ops, {}
+
+
 def udf_fid_cross(cfg, rng, n=60):
     """UDF: enough names in one directory to push the identifier area across a block, then removals."""
     if not cfg.udf:
@@ -658,6 +676,7 @@ RECIPES = {
     'multi_name_file': lambda cfg, rng: multi_name_file(cfg, rng),
     'deep_tree': lambda cfg, rng: deep_tree(cfg, rng),
     'reloc_churn': lambda cfg, rng: reloc_churn(cfg, rng),
+    'reloc_same_names': lambda cfg, rng: reloc_same_names(cfg, rng),
     'long_symlinks': lambda cfg, rng: long_symlinks(cfg, rng),
     'symlink_ce_release': lambda cfg, rng: symlink_ce_release(cfg, rng),
     'ce_second_block_release': lambda cfg, rng: ce_second_block_release(cfg, rng),
